@@ -63,7 +63,7 @@ CLAIMED = {
    note="clock constant within one WriteSector (vp.FreezeClock); K, S, coordinate set and length set bounded as stated; os.File not used (in-memory ReadWriteSeeker with and without WriterAt).",
    ref="6 C14"),
  "C15": dict(
-   text="Crash isolation: same symbolic pre-states as C14 (K<=2,S=5 quick; K<=3,S=7 thorough); the physical writes of one WriteSector are recorded and the process stops after every prefix of them, the next write torn at 0 bytes, at 512-byte boundaries and one byte short; the real Load of every such image succeeds and every other chunk reads back its bytes, absent chunks stay absent.",
+   text="Crash isolation: symbolic pre-states as in C14 (K<=2 live chunks in S=5 sectors, images padded or as WriteSector leaves them; thorough adds a WriterAt-backed file, a third chunk length and four 512-byte tear points); chunks of 1, 4092 (exact fit) and 4093 bytes are written to a live or a fresh coordinate; the physical writes of one WriteSector are recorded and the process stops after every prefix of them, the next write torn at 0 bytes, at 512-byte boundaries and one byte short; the real Load of every such image succeeds and every other chunk reads back its bytes, absent chunks stay absent.",
    note="writes reach the disk in program order; single-operation crash histories.",
    ref="6 C15"),
  "C16": dict(
@@ -83,20 +83,20 @@ CLAIMED = {
 # Extensions added after the first full round (sizes, shapes and histories the
 # seeded changes asked for); appended to the claim text of the property.
 EXTRA = {
- "C01": " Also: int/long/byte arrays and lists of 257/129/1025/300 (thorough 1100/1030/4100) elements, every element arbitrary, decoded in order into typed and `any` targets and encoded to the reference bytes; the encoding of an interface-typed sequence is the reference whatever was encoded before it (no content-dependent per-type caching). One Decoder/Encoder for two consecutive documents (first result intact, concatenated output, Encode after a refused value); Marshal/Unmarshal shortcuts with a result held across later calls.",
+ "C01": " Also: int/long/byte arrays and lists of 257/129/1025/300 (thorough 1100/1030/4100) elements, every element arbitrary, decoded in order into typed and `any` targets and encoded to the reference bytes; the encoding of an interface-typed sequence is the reference whatever was encoded before it (no content-dependent per-type caching). One Decoder/Encoder for two consecutive documents (first result intact, concatenated output, Encode after a refused value); Marshal/Unmarshal shortcuts with a result held across later calls. The list option on []bool, interface-typed, doubly-pointed and array fields; 600 compounds with skipped fields in one document.",
  "C02": " Also: four levels of anonymous embedding; maps with 2-3 entries whose values are carriers, slices, maps and structs with omitted fields; lists of such structs. Lists of 1100 and 33000 carriers (thorough: structs with omitted fields) element by element and byte for byte; strings, root names and map keys of 32766..70000 bytes: whatever the encoder accepts decodes back, the rest is refused.",
  "C04": " Also: byte/int/long arrays, lists and strings of 1025/300/140/1100/5000 (thorough up to 70000) elements through binary -> text -> binary with one arbitrary element at the 1024 boundary. Integer literals around every range limit (all 3-digit, thorough 5-digit, magnitudes; two arbitrary final digits after concrete prefixes around 2^31, 2^32, 2^63, 2^64) alone, as array element and as compound value: exact in range, never a wrapped number out of range. A fixed valid text of each container kind converts to its reference bytes after any earlier text of 2..5 (thorough 2..6) bytes, accepted or rejected.",
- "C06": " Also: String, ByteArray, Ary[VarInt], BitSet and Tuple{String,Int} at 127/128/300/16384/70000 (thorough also 129/16383/32767) elements with arbitrary contents, whole-value comparison and exact counts. Optional fields decoded absent then present into the same destination (FixedBitSet, Ary, Tuple); packets built by Marshal held across later Marshal calls; ReadFrom after a truncated read into the same destination; empty NBT containers as fields; Scan on payloads cut at field boundaries and with a trailing zero-length field.",
- "C07": " Also: frames of 300 KiB and just below the 2 MiB limit (Packet Length of 4 VarInt bytes) in every threshold class against the independent frame reader; packets received earlier and held in their own Packet stay intact across later Pack/UnPack calls with always-reused pooled buffers. After a failed Pack or UnPack the next one is unaffected; payloads of 32767/65535/327679 bytes (inflated size a multiple of the deflate window).",
- "C08": " Also: Registry.ReadFrom (raw and typed entries) and ReadTagsFrom on every byte string of 0..7 (thorough 0..9) bytes, fresh and populated; text components in NBT form and chat-type headers on every byte string of 0..7 (thorough 0..9) bytes; declared sizes of 32767..2^22 over streams of 0..3 bytes for String, ByteArray, BitSet, Ary, Identifier and both frame modes; arrays declaring 0..70001 and 2^22 elements over streams holding 1500/5000 (thorough 70000) elements: never a panic, success exactly when every declared element is present.",
+ "C06": " Also: String, ByteArray, Ary[VarInt], BitSet and Tuple{String,Int} at 127/128/300/16384/70000 (thorough also 129/16383/32767) elements with arbitrary contents, whole-value comparison and exact counts. Optional fields decoded absent then present into the same destination (FixedBitSet, Ary, Tuple); packets built by Marshal held across later Marshal calls; ReadFrom after a truncated read into the same destination; empty NBT containers as fields; Scan on payloads cut at field boundaries and with a trailing zero-length field. Ary behind UnsignedByte (127..255 elements) and UnsignedShort (300, thorough 32768/40000) prefixes; an NBT field written after one whose encoding failed.",
+ "C07": " Also: frames of 300 KiB and just below the 2 MiB limit (Packet Length of 4 VarInt bytes) in every threshold class against the independent frame reader; packets received earlier and held in their own Packet stay intact across later Pack/UnPack calls with always-reused pooled buffers. After a failed Pack or UnPack the next one is unaffected; payloads of 32767/65535/327679 bytes (inflated size a multiple of the deflate window). Runs of one byte just below 2 MiB (the model codec compresses them to a few bytes, real deflate about a thousandfold); Conn frames read and written by the packet layer in each threshold class.",
+ "C08": " Also: Registry.ReadFrom (raw and typed entries) and ReadTagsFrom on every byte string of 0..7 (thorough 0..9) bytes, fresh and populated; text components in NBT form and chat-type headers on every byte string of 0..7 (thorough 0..9) bytes; declared sizes of 32767..2^22 over streams of 0..3 bytes for String, ByteArray, BitSet, Ary, Identifier and both frame modes; arrays declaring 0..70001 and 2^22 elements over streams holding 1500/5000 (thorough 70000) elements: never a panic, success exactly when every declared element is present. Chunks whose light masks and arrays disagree; no-progress loops on bounded inputs are violations (vp.NoSpin, command dispatcher and field decoders).",
  "C10": " Also: single calls of 1025 and 4097 (thorough 2049) bytes in every buffer arrangement; the encrypted Conn over a transport delivering 1 or 3 bytes per Read. Totals of 272/528/1040 bytes; 4095..5000-byte packets over the encrypted Conn, also over a 1500-byte-per-read transport.",
- "C12": " Also: with-data constructors with palettes beyond the indirect range (257/300 block states, 9/16/17 biomes: the saved form indexes its own palette). Saved palettes of 1024..4096 entries over 4096 positions; reload after a truncated section.",
- "C13": " Also: the save form of a container in every representation class (1..300 distinct states, 1..64 biomes) read back by the with-data constructors position by position; ChunkToSave -> ChunkFromSave of a chunk with sections over a four-state mini registry whose ids and names coincide with the real registry (air, stone, granite, polished granite), with arbitrary blocks at chosen positions, a biome, light arrays absent / present-and-dark / present with arbitrary bytes, status and a height map.",
- "C03": " Also: the typed decoder fed from bytes.Reader and (thorough) bytes.Buffer sources (which expose Len and friends) as well as a bare reader; a non-empty list whose element type is TAG_End counts as an unknown tag id.",
+ "C12": " Also: with-data constructors with palettes beyond the indirect range (257/300 block states, 9/16/17 biomes: the saved form indexes its own palette). Saved palettes of 1024..4096 entries over 4096 positions; reload after a truncated section. A value dying and returning around an exactly full palette of 16..256 entries.",
+ "C13": " Also: the save form of a container in every representation class (1..300 distinct states, 1..64 biomes) read back by the with-data constructors position by position; ChunkToSave -> ChunkFromSave of a chunk with sections over a four-state mini registry whose ids and names coincide with the real registry (air, stone, granite, polished granite), with arbitrary blocks at chosen positions, a biome, light arrays absent / present-and-dark / present with arbitrary bytes, status and a height map. Two or three block entities with and without NBT data, into fresh and used chunks, re-written byte for byte.",
+ "C03": " Also: the typed decoder fed from bytes.Reader and (thorough) bytes.Buffer sources (which expose Len and friends) as well as a bare reader; a non-empty list whose element type is TAG_End counts as an unknown tag id. Byte arrays declaring 65537/131073 bytes with 0/1/65535/65536/all payload bytes present; lists and compounds nested 100..600 levels through every byte-level decoder and the text converter; no-progress loops on the bounded inputs are violations (vp.NoSpin).",
  "C09": " Carriers and dynbt.Value on structured values (several multi-byte elements, nested arrays, a compound) under all schedules; payloads of 4096..70000 bytes with the writer failing right after the header, mid-frame or on the last byte, and the stream of such a frame ending or failing early. The last read of a stream may deliver its data together with io.EOF (packet fields, NBT targets); NBT fields inside packets with failing writers and readers.",
- "C14": " Two (thorough: three) successive writes on one Region value from arbitrary small layouts (state kept between calls). Bursts of two (thorough: three) writes with checks only at the end, on fresh and loaded regions; data returned by ReadSector held across later reads and writes.",
+ "C14": " Two (thorough: three) successive writes on one Region value from arbitrary small layouts (state kept between calls). Bursts of two (thorough: three) writes with checks only at the end, on fresh and loaded regions; data returned by ReadSector held across later reads and writes. PadToFullSector on loaded regions with holes, backed by a plain seeker, a WriterAt and a truncatable file.",
  "C17": " After a write that failed at offset 0, 1 or last-1 the next component is written and read back as usual; chat-type targets that are blank, style-only or a translation.",
- "C18": " Repeated presentation of the same (key, signature): an acceptance is backed by an RSA success against the embedded key in that very call. Server ids of 0..100 bytes with 16-byte secrets and 162-byte keys (hash stubs functionally consistent); a PublicKey value reused for a second packet with another key and the same signature.",
+ "C18": " Repeated presentation of the same (key, signature): an acceptance is backed by an RSA success against the embedded key in that very call. Server ids of 0..100 bytes with 16-byte secrets and 162-byte keys (hash stubs functionally consistent); a PublicKey value reused for a second packet with another key and the same signature. Signature lengths 0,1,2,256,512,513 against a stub services key with a 4096-bit modulus.",
  "C11": " Also: 4096 values at 4..32 bits on the wire (256..2048 longs); ReadFrom after a truncated ReadFrom.",
  "C16": " Also: payloads of 4000 and 4082..4086 bytes (declared length up to the 4096 limit) written and read back; the server side starts from an arbitrary recorded request id. Payloads of three frames compared after all were read; after a failed WritePacket the next frame is exactly its own bytes.",
 }
